@@ -327,6 +327,26 @@ func vfC12(w *vfWorld) {
 			}
 		}
 	}
+	// (b) under store faults as well: a stale session that can neither be refreshed nor re-validated and is answered as
+	// unauthenticated must have its cookie cleared - whatever happens to the store entry (the deletion of the stored
+	// session may fail; the browser must still be told to drop the credential)
+	if faulty && cs.Provider == "oidc" && cs.Refresh != "ok" {
+		for i, tr := range results {
+			if tr.resp == nil || !tr.stale || tr.served || tasks[i].aborted {
+				continue
+			}
+			r := tr.resp
+			v1, s1 := idTokenValid(g0, tasks[i].startAt)
+			v2, s2 := idTokenValid(g0, r.At)
+			if !(s1 && s2 && !v1 && !v2) || (r.Status != 401 && r.Status != 403 && r.Status != 302) {
+				continue
+			}
+			w.probe("c12:both-failed-under-store-faults")
+			if !vfHasDeletion(r, cfg.CookieName) {
+				w.violate("C12", "both-failed-cookie-kept", cs.Store+"/store-fault", "task T%d: refresh and validation failed and the request was answered %d, but no deletion of %s was sent (store faults: %v)", i+1, r.Status, cfg.CookieName, w.faults)
+			}
+		}
+	}
 	// expected outcome in fault-free runs
 	if cs.Faults == "none" || !faulty {
 		canRefresh := cs.Provider == "oidc" && cs.Refresh == "ok"
